@@ -40,10 +40,8 @@ def fake_point(k, g, mu):
     from hiten.algorithms.types.services import libration as lib
     cls = {1: lib._L1DynamicsService, 2: lib._L2DynamicsService, 3: lib._L3DynamicsService,
            4: lib._L4DynamicsService, 5: lib._L5DynamicsService}[k]
-    dyn = types.SimpleNamespace(gamma=g, mu=mu)
-    dyn.sign = cls.sign.fget(dyn)
-    if k <= 3:
-        dyn.a = T.retarget(cls.a.fget)(dyn)
+    # the dynamics service is a proxy of the REAL class (sign, a, ... are its own retargeted properties) with symbolic gamma, mu
+    dyn = T.Proxy(cls, dict(gamma=g, mu=mu))
     return types.SimpleNamespace(mu=mu, dynamics=dyn)
 
 
@@ -156,29 +154,45 @@ def run_builders(Nmax, cn_of):
     return Ts, H, tlog
 
 
+def solve_recurrence(Ps, lin, rho2, Nmax):
+    """read the three-term recurrence P_n = a_n * lin * P_(n-1) - b_n * rho2 * P_(n-2) back from the polynomials the builder PRODUCED (exact
+    rational arithmetic): two monomials with independent rows give (a_n, b_n) -- exactly the floats the code used, because the builder ran on
+    an exact algebra -- and the identity is then verified on every monomial (wiring).  Independent of how the code organises its temporaries."""
+    ops = xp_ops([])
+    out, wiring = [], True
+    for n in range(2, Nmax + 1):
+        M1 = ops["_polynomial_multiply"](lin, Ps[n - 1], Nmax).d
+        M2 = ops["_polynomial_multiply"](rho2, Ps[n - 2], Nmax).d
+        Pn = Ps[n].d
+        monos = sorted(set(M1) | set(M2) | set(Pn))
+        sol = None
+        for i, e1 in enumerate(monos):
+            for e2 in monos[i + 1:]:
+                a11, a12, a21, a22 = M1.get(e1, 0), -M2.get(e1, 0), M1.get(e2, 0), -M2.get(e2, 0)
+                det = a11 * a22 - a12 * a21
+                if det != 0:
+                    r1, r2 = Pn.get(e1, 0), Pn.get(e2, 0)
+                    sol = (Fraction(r1 * a22 - a12 * r2) / det, Fraction(a11 * r2 - a21 * r1) / det)
+                    break
+            if sol:
+                break
+        if sol is None:
+            return out, False
+        a, b = sol
+        out.append((n, a, b))
+        if any(Pn.get(e, 0) != a * M1.get(e, 0) - b * M2.get(e, 0) for e in monos):
+            wiring = False
+    return out, wiring
+
+
 def legendre_coeffs_from(Ts, Nmax, log):
-    """(a_n, b_n) are the scale factors the builder handed to `_polynomial_add_inplace` (log per n: a, 1, 1, 1, -b, 1, 1); the wiring is
-    checked by recomputing T_n = a x T_{n-1} - b rho^2 T_{n-2} exactly and comparing with what the builder produced."""
-    scales = [q for tag, q in log if tag == "add"]
-    out = []
+    """(a_n, b_n) of T_n = a_n x T_(n-1) - b_n rho^2 T_(n-2), recovered from the builder's output (see `solve_recurrence`)"""
     ops = xp_ops([])
     x, y, z = [ops["_polynomial_variable"](i, Nmax) for i in range(3)]
     rho2 = XP({}, Nmax)
     for v in (x, y, z):
         ops["_polynomial_add_inplace"](rho2, ops["_polynomial_multiply"](v, v, Nmax), 1.0)
-    wiring = len(scales) == 7 * (Nmax - 1)
-    for n in range(2, Nmax + 1):
-        seg = scales[7 * (n - 2): 7 * (n - 1)]
-        if len(seg) != 7 or seg[1:4] != [1, 1, 1] or seg[5:] != [1, 1]:
-            wiring = False
-            break
-        a, b = seg[0], -seg[4]
-        out.append((n, a, b))
-        chk = XP({}, Nmax)
-        ops["_polynomial_add_inplace"](chk, ops["_polynomial_multiply"](x, Ts[n - 1], Nmax), a)
-        ops["_polynomial_add_inplace"](chk, ops["_polynomial_multiply"](rho2, Ts[n - 2], Nmax), -b)
-        if chk.d != Ts[n].d:
-            wiring = False
+    out, wiring = solve_recurrence(Ts, x, rho2, Nmax)
     if Ts[0].d != {(0,) * 6: Fraction(1)} or Ts[1].d != x.d:
         wiring = False
     return out, wiring
@@ -206,29 +220,26 @@ def run_tri_builders(Nmax, mu, sgn):
 
 
 def tri_recurrence(Nmax, dx, dy):
-    """(m, c1_m, c2_m) for m = 2..Nmax read from the scale factors `_build_A_polynomials` hands to `_polynomial_add_inplace`
-    (tail of the log: c1, -c2, 1, 1 per step) and the wiring check A_0 = 1, A_1 = d.r, A_m = c1 (d.r) A_(m-1) - c2 rho^2 A_(m-2)"""
+    """(m, c1_m, c2_m) for m = 2..Nmax of A_m = c1 (d.r) A_(m-1) - c2 rho^2 A_(m-2), recovered from what `_build_A_polynomials` produces on
+    exact polynomials (see `solve_recurrence`), with A_0 = 1, A_1 = d.r"""
     from hiten.algorithms.hamiltonian import hamiltonian as hm
-    log = []
-    ops = xp_ops(log)
+    ops = xp_ops([])
     x, y, z = [ops["_polynomial_variable"](i, Nmax) for i in range(3)]
     As = T.retarget(hm._build_A_polynomials, ops, {})(x, y, z, float(dx), float(dy), Nmax, None, None, None)
-    scales = [q for tag, q in log if tag == "add"]
-    tail = scales[len(scales) - 4 * (Nmax - 1):]
-    head = scales[:len(scales) - 4 * (Nmax - 1)]
-    wiring = head == [Fraction(dx), Fraction(dy), 1, 1, 1, Fraction(dx), Fraction(dy)]
-    out = []
-    for m in range(2, Nmax + 1):
-        seg = tail[4 * (m - 2): 4 * (m - 1)]
-        if len(seg) != 4 or seg[2:] != [1, 1]:
-            wiring = False
-            break
-        out.append((m, seg[0], -seg[1]))
-    mine = tri_A_exact(Nmax, Fraction(dx), Fraction(dy), out)
-    for n in range(Nmax + 1):
-        if n >= len(As) or As[n].d != mine[n].d:
-            wiring = False
-    shape = all(sum(e) == n and not any(e[3:]) for n in range(Nmax + 1) for e in mine[n].d)
+    rho2 = XP({}, Nmax)
+    for v in (x, y, z):
+        ops["_polynomial_add_inplace"](rho2, ops["_polynomial_multiply"](v, v, Nmax), Fraction(1))
+    dot = XP({}, Nmax)
+    ops["_polynomial_add_inplace"](dot, x, Fraction(dx))
+    ops["_polynomial_add_inplace"](dot, y, Fraction(dy))
+    As = [As[n] for n in range(Nmax + 1)]
+    out, wiring = solve_recurrence(As, dot, rho2, Nmax)
+    if As[0].d != {(0,) * 6: Fraction(1)} or As[1].d != dot.d:
+        wiring = False
+    mine = tri_A_exact(Nmax, Fraction(dx), Fraction(dy), out) if len(out) == Nmax - 1 else None
+    if mine is None or any(As[n].d != mine[n].d for n in range(Nmax + 1)):
+        wiring = False
+    shape = all(sum(e) == n and not any(e[3:]) for n in range(Nmax + 1) for e in As[n].d)
     return out, wiring, shape
 
 
@@ -372,13 +383,14 @@ def gen(ctx):
 
 
 def run(ctx):
-    TRC = gen(ctx)
+    TRC = ctx.guard("regenerate", gen, ctx)
     ok = ctx.lean_build(["HitenModel.Props.C07"])
     if ok:
         ctx.lean_audit(["HitenModel.Props.C07"], ["HitenModel.Props.C07", "HitenModel.Gen.C07"])
         if ctx.thorough():
             ctx.leanchecker(["HitenModel.Props.C07"])
-    validate(ctx, TRC)
+    if TRC is not None:
+        ctx.guard("validate", validate, ctx, TRC)
     numerics(ctx)
     ctx.rule = ("(mu, point L1..L5, degree N, direction in phase space) x radii; remainder exponents fitted over radii; distinct by (mu, point, N); "
                 "non-trivial = every case")
